@@ -268,6 +268,10 @@ def check_inv(ck, inv_lines, stats):
     for case, l, f, alts, match in rows:
         stats["inv_lines"] += 1
         skipped = (f[6], f[7]) == (f[4], f[5])
+        if not match and not skipped and (f[6], f[7], f[18]) == ("0", "0", "0"):
+            # the player reset the channel in this tick and update_invloop did not run afterwards; nothing was stored
+            stats["inv_reset_without_update"] += 1
+            continue
         if not match and not skipped:
             ck.unproved("correspondence Wrap.invloopStep vs update_invloop",
                         "case %s\n%s\nmodel alternatives (count:pos:index) %s" % (case["line"], l, alts))
@@ -351,7 +355,7 @@ def run(ck):
     do_skel(ck, wexe, mods, 16, 50 if quick else 400, 60000 if quick else 120000, stats)
     # 4. direct oracle
     dexe = vlib.build_harness("c15_digest", ["c15_digest.c"])
-    dmods = corpus(ck, 90 if quick else 400, want_mod=12 if quick else 60)
+    dmods = corpus(ck, 300 if quick else 400, want_mod=30 if quick else 60)
     inv_mods = probe_invloop_capable(dexe, [f for f in vlib.corpus_files() if 0 < os.path.getsize(f) < 300000])
     ck.note("invloop_capable_modules", len(inv_mods))
     if inv_mods:
@@ -361,7 +365,7 @@ def run(ck):
         for j in range(0, len(dmods), 3):
             dmods[j] = inv_mods[k % len(inv_mods)]
             k += 1
-    do_digest(ck, dexe, dmods, 16, 8 if quick else 200, 150 if quick else 500, stats)
+    do_digest(ck, dexe, dmods, 16, 24 if quick else 200, 150 if quick else 500, stats)
     for k, v in sorted(stats.items()):
         ck.note(k, v)
     ck.cov["rule"] = ("wrap: one case = (8/16 bit, mono/stereo, len, start<=end<=len with edges favoured, loop flag, first-loop, bidir, "
